@@ -330,3 +330,42 @@ def r8_boundary_at_exit(ctx):
 
 
 RULES += [r8_boundary_at_exit]
+
+
+def r9_unreachable_statement(ctx):
+    ctx.rule("C18.r9", "liveness: the kill/gen sets of a block are built from ALL the statements that precede an `unreachable` statement "
+             "- the backward walk over the statements never stops at it (no break / return in the loop) and every block gets a "
+             "kill/gen entry; `b: assert(x >= 1); unreachable;` uses x", floor=2)
+    fs = [f for f in ctx.db.fns(LIVE, name="init_fixpoint")]
+    if not ctx.need(fs, "liveness_analysis_operations::init_fixpoint", "C18.r9"):
+        return
+    from .. import paths as _p
+    for fn in fs[:1]:
+        body = fn["body"]
+        inner = [l for l in walk(body) if l.get("k") in ("rangefor", "for") and any(is_call(c, name=("get_live", "is_unreachable")) for c in walk(l.get("b")))]
+        inner = [l for l in inner if not any(m is not l and m in inner for m in walk(l.get("b")) if isinstance(m, dict))] or inner
+        if not inner:
+            ctx.fail("rule C18.r9: statement loop not found in liveness init_fixpoint")
+            return
+        stmt_loop = inner[-1]
+        brk = [x for x in walk(stmt_loop.get("b")) if x.get("k") in ("break", "ret")]
+        if brk:
+            ctx.bad("liveness init_fixpoint leaves the backward walk over the statements of a block (`%s`) - presumably at an "
+                    "`unreachable` statement: the uses of the statements BEFORE it are lost, so x is dead before "
+                    "`b: assert(x >= 1); unreachable;`" % brk[0].get("k"), fn, brk[0], sig="liveness-walk-stops-at-unreachable")
+        else:
+            ctx.ok("the statement walk is never left early", fn, stmt_loop)
+        g = _p.guards(body)
+        ins = [c for c in walk(body) if is_call(c, name=("insert", "emplace")) and is_field(obj(c), "m_liveness_map")]
+        for c in ins:
+            conds = [cnd for cnd, pol in g.get(id(c), ()) if not isinstance(cnd, tuple)]
+            if conds:
+                ctx.bad("liveness init_fixpoint records the kill/gen sets of a block only under `%s`: a block without an entry is "
+                        "analysed as if it used nothing" % src(conds[-1])[:40], fn, c, sig="liveness-entry-conditional")
+            else:
+                ctx.ok("every block gets a kill/gen entry", fn, c)
+        if not ins:
+            ctx.fail("rule C18.r9: m_liveness_map is never filled")
+
+
+RULES += [r9_unreachable_statement]
